@@ -24,6 +24,8 @@ pub enum Call {
     Poll(u64, usize),
     /// a gated request completed (kind, key)
     Completed(ReqKind, u32),
+    /// a gated request was dropped by its caller before the provider answered (kind, key)
+    Dropped(ReqKind, u32),
 }
 
 #[derive(Clone, Copy, Debug, PartialEq, Eq, serde::Serialize, serde::Deserialize)]
@@ -187,7 +189,22 @@ impl TableProvider {
 
     async fn gate(&self, kind: ReqKind, key: u32) {
         if let Some(s) = &self.sched {
+            struct LogDrop<'a> {
+                log: &'a RefCell<Vec<Call>>,
+                kind: ReqKind,
+                key: u32,
+                done: bool,
+            }
+            impl Drop for LogDrop<'_> {
+                fn drop(&mut self) {
+                    if !self.done {
+                        self.log.borrow_mut().push(Call::Dropped(self.kind, self.key));
+                    }
+                }
+            }
+            let mut guard = LogDrop { log: &self.log, kind, key, done: false };
             Gate::new(s.clone(), kind, key).await;
+            guard.done = true;
             self.log.borrow_mut().push(Call::Completed(kind, key));
         }
     }
